@@ -269,6 +269,29 @@ def build(case):
             # the importance of universe cells does not decide anything
             for cel in rng.sample(deck.cells[-2:], rng.randint(1, 2)):
                 cel.imp = {'n': '0'}
+        if rng.random() < 0.4:
+            # two levels: the cells of universe 7 are themselves filled, and
+            # have zero importance (they are not level-0 cells: what is
+            # converted is decided by the level-0 cell alone)
+            deck.surfs.append(M.Surf(102, 'py', [0.2]))
+            deck.cells.append(M.Cell(301, mat=1, rho='-1.5', geom=M.S(-102),
+                                     imp={'n': '1'}, u=8))
+            deck.cells.append(M.Cell(302, mat=2, rho='-2.5', geom=M.S(102),
+                                     imp={'n': '1'}, u=8))
+            mids = [c for c in deck.cells if c.u == 7]
+            for cel in mids:
+                cel.fill = M.Fill(universe=8)
+            if deck.imp_cards:
+                parts, toks = deck.imp_cards[0]
+                toks = list(toks)
+                toks[-2:] = ['0', '0']
+                deck.imp_cards[0] = (parts, toks + ['1', '1'])
+                for cel in deck.cells[-2:]:
+                    cel.imp = None
+            else:
+                for cel in mids:
+                    cel.imp = {'n': '0'}
+            deck.tags.add('imp.nested-zero-intermediate')
         hosts = rng.sample(range(ncell), min(ncell, rng.randint(2, 4)))
         if not any(k in zeros for k in hosts):
             hosts[0] = sorted(zeros)[0]
